@@ -637,6 +637,17 @@ def run(F, sel=None):
                     hits[k_] = e
                     taken.add(j_)
                     break
+        def _polar(desc):
+            # `x == c {A} else {B}` and `x != c {B} else {A}` are the same piecewise definition (likewise < / >=, <= / >)
+            return re.sub(r"^(Eq|Ne)\b", "EqNe", re.sub(r"^(Lt|Ge)\b", "LtGe", re.sub(r"^(Le|Gt)\b", "LeGt", desc)))
+        for k_, sw in enumerate(sws):           # the same comparison written with the opposite polarity and swapped branches
+            if k_ in hits:
+                continue
+            for j_, e in enumerate(cands):
+                if j_ not in taken and _polar(e["desc"]) == _polar(sw["desc"]):
+                    hits[k_] = e
+                    taken.add(j_)
+                    break
         for k_, sw in enumerate(sws):           # a respelled comparison (no numeric constant visible: `partial_cmp`, `==` on an
             if k_ in hits or re.search(r":[-0-9]", sw["desc"]):     # Ordering) may take a reviewed entry that is otherwise unmatched
                 continue
